@@ -86,12 +86,14 @@ static void part_pairs(int w_, int W_) {
 		const uint32_t a1[] = {0, m1, 0xA5A5A5A5u & m1, 1u << (w1 - 1), 1u, 0x5A5A5A5Au & m1}, a2[] = {0, m2, 0x5A5A5A5Au & m2, 1u, 1u << (w2 - 1), 0xA5A5A5A5u & m2};
 		for (uint32_t v1 : a1) for (uint32_t v2 : a2) for (int third = 0; third < 2; ++third) {
 			B255::Buf buf; B255::Wr ws{buf}; Model m; m.clear();
+			B255::Rd early{buf};   // a reader attached before anything is written reads the buffer, not a snapshot of it
 			for (int i = 0; i < off; ++i) { B255::wr(ws, 1, 1); m.write(1, 1); }
 			B255::wr(ws, w1, v1); m.write(w1, v1); B255::wr(ws, w2, v2); m.write(w2, v2);
 			if (third) { B255::wr(ws, 3, 5); m.write(3, 5); }
 			me().cases += 2 + third;
 			char rp[96]; snprintf(rp, sizeof rp, "pair:off=%d,w1=%d,v1=%u,w2=%d,v2=%u,third=%d", off, w1, v1, w2, v2, third);
 			if (ws.cursor() != m.cursor || memcmp(buf.data(), m.bytes, NBYTES)) violation("pair-buffer", rp, "two consecutive fields at offset %d differ from the model", off);
+			{ for (int i = 0; i < off; ++i) (void)B255::rd(early, 1); const uint32_t e1 = B255::rd(early, w1), e2 = B255::rd(early, w2); if (e1 != v1 || e2 != v2) violation("reader-attached-before-writes", rp, "a read stream constructed before the writes reads %u,%u, written %u,%u", e1, e2, v1, v2); }
 			B255::Rd rs{buf}; for (int i = 0; i < off; ++i) (void)B255::rd(rs, 1);
 			const uint32_t g1 = B255::rd(rs, w1), g2 = B255::rd(rs, w2);
 			if (g1 != v1 || g2 != v2 || (third && B255::rd(rs, 3) != 5)) violation("pair-read-back", rp, "read back %u,%u", g1, g2);
